@@ -19,6 +19,8 @@ CLAIMED = {
          TRUST + "insert's contract is established by C08 for the template body modulo L-tree / L-order; qualified operands are assumed in normal form (table invariant, L-history); std::less<> and std::allocator assumed.", "DESIGN.md 6 (C11)"),
  "C01": ("proof", "For every type constructor of the property a two-request obligation on the lowered real get_* body (operands from symbolic pools of arbitrary nodes, transfers by spelling, qualifier sets by value): same request <=> same node, result reports its operands, natural-transfer and default-specification collapsing across overloads; each table's insert is used through its contract, with the comparator clang resolved inside insert and the element constructor run for real (CTOR-KEY); each comparator is proved a three-way total order on three symbolic requests (CMP-ORDER).  Product/sum obligations bound the sequence length (<= 2) and are listed as bounded.",
          TRUST + "insert's contract is established by C08 modulo L-tree / L-order; L-history lifts the two-request statement to every history; Warehouse overloads of get_product/get_sum are not yet covered; std::less, u8string_view::compare, std::allocator assumed.", "DESIGN.md 6 (C01)"),
+ "C04": ("proof", "For every name and atom constructor of the property a two-request obligation on the lowered real body (operands from symbolic pools of arbitrary nodes; Strings: a reserved spelling, the empty word and two other words): same request <=> same node, the result reports its operands, reserved spellings yield the reserved Identifier / logogram / linkage / `default` constant; each table's insert is used through its contract with the comparator clang resolved inside insert (incl. the capturing comparator of get_symbol) and the real element constructor; each comparator is proved a three-way total order on three symbolic requests.",
+         TRUST + "insert's contract is established by C08 modulo L-tree / L-order; interning (get_string) and the reserved-word lookup are used through the contracts C03 proves; L-history lifts the two-request statement to every history; equality of Linkage / Calling_convention / Transfer values is C15's obligation; std::less and u8string_view comparison assumed.", "DESIGN.md 6 (C04)"),
 }
 m = {"version": 1,
  "setup_cmd": "python3 -c \"import sys; sys.path.insert(0,'lib'); import ipv; ipv.ensure_cxx2c()\"",
